@@ -323,6 +323,147 @@ func TestFaultEnumeration(t *testing.T) {
 	ev.Exhaustive("every backend operation of a Store x {error, short write, process stop} x {mutable, immutable}")
 }
 
+// ---- (a') fault enumeration over every backend operation of a Fetch -------------------------------------------------------
+
+type FetchFaultCase struct {
+	Backend string `json:"backend"`
+	Cache   string `json:"cache"`
+	Files   int    `json:"files"`
+	K       int64  `json:"fault_at_operation"` // 1-based index among the operations of the Fetch
+	Fault   string `json:"fault"`              // error | short
+}
+
+// fetchEnv stores two versions without any fault and returns the environment.
+func fetchEnv(t ev.T, backend, cache string, files int) *env {
+	v1, v2 := Version{ID: 1, Files: files, Size: 64}, Version{ID: 2, Files: files + 1, Size: 96}
+	e := newEnv(backend, cache, []Version{v1, v2})
+	e.box.Backend.KeepOps(false)
+	_, w := e.client("writer")
+	for id := 1; id <= 2; id++ {
+		if err := w.Store(context.Background(), key, e.srcDir[id]); err != nil {
+			e.box.Close()
+			t.Fatalf("HARNESS: fault-free Store of version %d failed: %v", id, err)
+		}
+		time.Sleep(2 * time.Millisecond) // the immutable cache orders versions by modification time
+	}
+	return e
+}
+
+func measureFetch(t ev.T, backend, cache string, files int) int64 {
+	e := fetchEnv(t, backend, cache, files)
+	defer e.box.Close()
+	_, r := e.client("reader")
+	var n int64
+	e.box.Backend.After = func(op *fsx.Op) {
+		if op.Client == "reader" {
+			n++
+		}
+	}
+	if err := r.Fetch(context.Background(), key, e.box.Path("dest")); err != nil {
+		t.Fatalf("HARNESS: fault-free Fetch failed: %v", err)
+	}
+	time.Sleep(60 * time.Millisecond)
+	return n
+}
+
+func checkFetchFault(t ev.T, test string, c FetchFaultCase) (skipped string) {
+	e := fetchEnv(t, c.Backend, c.Cache, c.Files)
+	defer e.box.Close()
+	ctx := context.Background()
+	_, r := e.client("reader")
+	var n int64
+	var hit *fsx.Op
+	var mu sync.Mutex
+	e.box.Backend.FaultAt = func(op *fsx.Op, _ int64) *fsx.Fault {
+		if op.Client != "reader" {
+			return nil
+		}
+		mu.Lock()
+		defer mu.Unlock()
+		n++
+		if n != c.K {
+			return nil
+		}
+		cp := *op
+		hit = &cp
+		if c.Fault == "short" {
+			return &fsx.Fault{Kind: "short"}
+		}
+		return &fsx.Fault{Kind: "error"}
+	}
+	dest := e.box.Path("dest")
+	var ferr error
+	ev.Guard(t, prop, test, c, func() { ferr = r.Fetch(ctx, key, dest) })
+	mu.Lock()
+	h := hit
+	mu.Unlock()
+	e.box.Backend.FaultAt = nil
+	if h == nil {
+		return "fault point beyond the end of this run"
+	}
+	if c.Fault == "short" && !(h.Kind == "write" || h.Kind == "writestring" || h.Kind == "writeat") {
+		return "short write on a non-write operation"
+	}
+	what := fmt.Sprintf("fault %q at operation %d of the Fetch (%s); Fetch returned %v", c.Fault, c.K, strings.ReplaceAll(h.String(), e.box.Root, ""), ferr)
+	if ferr == nil {
+		id, detail := identify(e.box, dest, e.versions, e.sources)
+		if id < 0 {
+			ev.Fail(t, prop, test, c, "Fetch reported success but the destination is not one complete stored version (%s). %s", detail, what)
+		}
+		if id != 2 {
+			ev.Fail(t, prop, test, c, "Fetch reported success but installed version %d although version 2 was stored last (nothing was interrupted). %s", id, what)
+		}
+		ev.Class("fetch-under-fault: success, version 2")
+	} else {
+		ev.Class("fetch-under-fault: error")
+	}
+	// the cache itself must be unharmed: a fresh client fetches version 2
+	_, r2 := e.client("reader2")
+	dest2 := e.box.Path("dest2")
+	var ferr2 error
+	ev.Guard(t, prop, test, c, func() { ferr2 = r2.Fetch(ctx, key, dest2) })
+	if ferr2 != nil {
+		// a failed operation on the side file may leave it stale or missing (C16-R19's mechanism, reached from the Fetch side)
+		if isHashSideFile(h, e.remote) || strings.HasSuffix(h.Path, ".hash") {
+			ev.Exclude("C16-R19 a write of the remote .hash side file failed (during a Fetch)")
+			return "known finding C16-R19"
+		}
+		ev.Fail(t, prop, test, c, "after a Fetch during which one operation failed, a later fault-free Fetch by another client fails: %v. %s", ferr2, what)
+	} else if id, detail := identify(e.box, dest2, e.versions, e.sources); id != 2 {
+		ev.Fail(t, prop, test, c, "after a Fetch during which one operation failed, a later fault-free Fetch installs version %d (%s) instead of version 2. %s", id, detail, what)
+	}
+	return ""
+}
+
+func TestFetchFaultEnumeration(t *testing.T) {
+	shard, shards := ev.Shard()
+	combos := [][2]string{{"os", "mutable"}, {"mem", "immutable"}}
+	if ev.Thorough() {
+		combos = append(combos, [2]string{"os", "immutable"})
+	}
+	var n int64
+	i := 0
+	for _, combo := range combos {
+		total := measureFetch(t, combo[0], combo[1], 3)
+		ev.MetricMax("operations-of-a-fetch/"+combo[1]+"/"+combo[0], float64(total))
+		for k := int64(1); k <= total; k++ {
+			for _, f := range []string{"error", "short"} {
+				i++
+				if i%shards != shard {
+					continue
+				}
+				c := FetchFaultCase{Backend: combo[0], Cache: combo[1], Files: 3, K: k, Fault: f}
+				if s := checkFetchFault(t, "TestFetchFaultEnumeration", c); s == "" {
+					n++
+				}
+			}
+		}
+	}
+	ev.Bulk(n, n, "fetch-fault-enumeration")
+	ev.Sample(FetchFaultCase{Backend: "os", Cache: "mutable", Files: 3, K: 40, Fault: "error"})
+	ev.Exhaustive("every backend operation of a Fetch x {error, short write} x {mutable, immutable}")
+}
+
 // ---- (b) sequences with faults at generated points ------------------------------------------------------------------------------
 
 type SeqOp struct {
@@ -702,6 +843,13 @@ func init() {
 			t.Fatalf("HARNESS: %v", err)
 		}
 		checkHeld(t, "TestHeldEntryLock", c)
+	})
+	ev.RegisterReplay("TestFetchFaultEnumeration", func(t ev.T, raw json.RawMessage) {
+		var c FetchFaultCase
+		if err := json.Unmarshal(raw, &c); err != nil {
+			t.Fatalf("HARNESS: %v", err)
+		}
+		checkFetchFault(t, "TestFetchFaultEnumeration", c)
 	})
 	ev.RegisterReplay("TestFaultEnumeration", func(t ev.T, raw json.RawMessage) {
 		var c FaultCase
